@@ -1,4 +1,6 @@
 import DigModel.Proofs.ApiLemmas
+import DigModel.Proofs.ReachApi
+import DigModel.Proofs.ProvApi
 /-
   C03 — Laziness.
 
@@ -7,8 +9,18 @@ import DigModel.Proofs.ApiLemmas
   `C03_invoke_registry`: building arguments never registers or unregisters anything (the
   resolver's frame), so laziness cannot be circumvented by an Invoke changing what later
   Invokes see as registered.
-  The closure statements (`C03_only`, `C03_order`, `C03_all`) are carried by the correspondence
-  check and the trace predicate `pred_c03`; theorems for them are part of the master invariant.
+  `C03_only` (full strength, any container state): every user function entered during an Invoke is the
+  invoked function itself or the function of a constructor / decorator **reachable** (`Reach`, defined on the
+  registry as it was when Invoke was called) from a parameter of the invoked function seen from the invoking
+  scope: through a decorator of the key registered on the path to the root, through the providers of a single
+  key in the *nearest* providing scope, through the providers of a non-soft value group on the path, and
+  recursively through the parameters of those nodes, each seen from the node's own scope (`origS` for
+  constructors).  A soft group reaches nothing but its decorators; sibling scopes, descendants, other keys,
+  farther providers of a shadowed key are outside the closure.  (`engine_only`: induction over the resolver.)
+  `C03_dependencies_complete_first` (whole programs): whatever value is handed to a user function stems
+  from executions that had already exited successfully (`Prov`).
+  `C03_all` (every not-yet-built constructor of the must-run closure has run after a successful Invoke) is
+  carried by the correspondence check and `pred_c03`.
 -/
 namespace Dig.C03
 
@@ -18,6 +30,58 @@ theorem C03_passive (ctx : Ctx) (fns : List Fn) (st : St) (i : Nat) (op : Op) (h
 theorem C03_invoke_registry (ctx : Ctx) (fuel : Nat) (ps : List Param) (c : Nat) (st : St) :
     RegFrame st (buildList ctx fuel ps c st).2 := buildList_regFrame ctx fuel ps c st
 
+theorem C03_only (ctx : Ctx) (fns : List Fn) (st : St) (i s f : Nat) (info : Bool) :
+    ∀ e ∈ (step ctx fns st i (.invoke s f info)).2.ev, ∀ w g x args, e = Event.enter w g x args →
+      w = .invoked ∨ ∃ fn params w0, fnOf fns f = some fn ∧
+        parseParams ctx.env { st with log := [] } s fn = (.ok params, w0) ∧ ∃ l ∈ leavesL params, Reach st s l w := by
+  simp only [step]
+  cases hf : fnOf fns f with
+  | none => intro e he; simp at he
+  | some fn =>
+    simp only
+    split
+    · intro e he w g x args heq
+      rcases apiInvoke_only ctx fn { st with log := [] } s info rfl e he w g x args heq with h | ⟨params, w0, hp, l, hl, hr⟩
+      · exact Or.inl h
+      · refine Or.inr ⟨fn, params, w0, rfl, hp, l, hl, ?_⟩
+        exact reach_view (a := { st with log := [] }) (b := st)
+          ⟨fun _ => rfl, fun _ => ⟨rfl, rfl⟩, fun _ => ⟨rfl, rfl⟩, fun _ => ⟨rfl, rfl⟩⟩ hr
+    · intro e he; simp at he
+
+theorem C03_dependencies_complete_first (p : Program) (i : Nat) (w : Who) (g y : Nat) (args : List Val)
+    (hent : (runProgram p).1.hist[i]? = some (.enter w g y args)) (a : Val) (ha : a ∈ args)
+    (f x : Nat) (htok : (f, x) ∈ a.toks) :
+    ∃ who, who ≠ .invoked ∧ Event.exit who f x .ok ∈ (runProgram p).1.hist.take i :=
+  (prov_program p).args i w g y args hent a ha (f, x) htok
+
+/-- non-vacuity (a test): with a provider of `k` in scope 0 only, that provider is reachable from a consumer of `k`
+    in scope 0 -/
+example : Reach { scopes := [{ parent := none, providers := [(⟨5, "", ""⟩, [0])] }], ctors := [default] } 0
+    (.single ⟨5, "", ""⟩) (.ctor 0) :=
+  Reach.provSelf (pc := 0) (ns := [0]) (by decide) (by simp)
+
+/-- non-vacuity, negative (a test): a constructor provided to a sibling scope is *not* reachable — nothing is -/
+def siblingTree : St :=
+  { scopes := [{ parent := none, children := [1, 2] }, { parent := some 0 },
+               { parent := some 0, providers := [(⟨5, "", ""⟩, [0])] }], ctors := [default] }
+
+example (w : Who) : ¬ Reach siblingTree 1 (.single ⟨5, "", ""⟩) w := by
+  intro h
+  have hanc : siblingTree.ancestors 1 = [1, 0] := by decide
+  cases h with
+  | decoSelf hs hd =>
+    rw [hanc] at hs
+    simp only [List.mem_cons, List.not_mem_nil, or_false] at hs
+    rcases hs with rfl | rfl <;> simp [siblingTree, St.scope, aget, Lf.key] at hd
+  | decoDep hs hd _ _ =>
+    rw [hanc] at hs
+    simp only [List.mem_cons, List.not_mem_nil, or_false] at hs
+    rcases hs with rfl | rfl <;> simp [siblingTree, St.scope, aget, Lf.key] at hd
+  | provSelf hn _ => rw [hanc] at hn; simp [nearestProv, siblingTree, St.scope, agetL, aget] at hn
+  | provDep hn _ _ _ => rw [hanc] at hn; simp [nearestProv, siblingTree, St.scope, agetL, aget] at hn
+
 #print axioms C03_passive
+#print axioms C03_only
+#print axioms C03_dependencies_complete_first
 #print axioms C03_invoke_registry
 end Dig.C03
